@@ -29,6 +29,10 @@ pub struct SiteCase {
     pub q: i32,
     pub k: i32,
     pub lj: bool,
+    /// the remaining public fields of the site's Wyckoff record (letter index, num_rotations, mirror_primary,
+    /// mirror_secondary): the statement is about the operations and the coordinates, so these may not matter
+    #[serde(default)]
+    pub record: Option<(u8, u64, bool, bool)>,
 }
 
 fn coord() -> BoxedStrategy<f64> {
@@ -41,9 +45,26 @@ fn coord() -> BoxedStrategy<f64> {
 }
 
 fn strat(_: &Ctx) -> BoxedStrategy<SiteCase> {
-    (0usize..7, coord(), coord(), mixf(0., 2. * PI, vec![0., PI, 2. * PI, PI / 2.]), -3i32..=3, -3i32..=3, -2i32..=2, any::<bool>())
-        .prop_map(|(group, x, y, phi, p, q, k, lj)| SiteCase { group, x, y, phi, p, q, k, lj })
+    (0usize..7, coord(), coord(), mixf(0., 2. * PI, vec![0., PI, 2. * PI, PI / 2.]), -3i32..=3, -3i32..=3, -2i32..=2, any::<bool>(), prop_oneof![3 => Just(None), 1 => (0u8..6, proptest::sample::select(vec![1u64, 2, 3, 4, 6, 12]), any::<bool>(), any::<bool>()).prop_map(Some)])
+        .prop_map(|(group, x, y, phi, p, q, k, lj, record)| SiteCase { group, x, y, phi, p, q, k, lj, record })
         .boxed()
+}
+
+/// the state with the other public fields of its site record replaced (through the JSON form, like any user of the files)
+fn with_record<T: serde::Serialize + serde::de::DeserializeOwned + Clone>(s: &T, c: &SiteCase) -> Result<T, String> {
+    let (letter, num_rotations, mp, ms) = match c.record {
+        None => return Ok(s.clone()),
+        Some(r) => r,
+    };
+    let mut v = serde_json::to_value(s).map_err(|e| e.to_string())?;
+    for site in v["occupied_sites"].as_array_mut().ok_or("no occupied_sites")?.iter_mut() {
+        let w = &mut site["wyckoff"];
+        w["letter"] = serde_json::json!(["a", "b", "c", "d", "e", "f"][letter as usize % 6]);
+        w["num_rotations"] = serde_json::json!(num_rotations);
+        w["mirror_primary"] = serde_json::json!(mp);
+        w["mirror_secondary"] = serde_json::json!(ms);
+    }
+    serde_json::from_value(v).map_err(|e| e.to_string())
 }
 
 fn placements(c: &SiteCase, x: f64, y: f64, phi: f64) -> Result<Vec<(Lin, P)>, String> {
@@ -51,12 +72,12 @@ fn placements(c: &SiteCase, x: f64, y: f64, phi: f64) -> Result<Vec<(Lin, P)>, S
     let wg = statejson::wg(c.group);
     let mats: Vec<Matrix3<f64>> = if c.lj {
         let t = PotentialState::from_group(LJShape2::circle(), &wg).map_err(|e| e.to_string())?;
-        let s = statejson::with_params(&t, &p)?;
+        let s = with_record(&statejson::with_params(&t, &p)?, c)?;
         let v: Vec<Matrix3<f64>> = s.relative_positions().map(|t| t.into()).collect();
         v
     } else {
         let t = PackedState::from_group(LineShape::polygon(4).map_err(|e| e.to_string())?, &wg).map_err(|e| e.to_string())?;
-        let s = statejson::with_params(&t, &p)?;
+        let s = with_record(&statejson::with_params(&t, &p)?, c)?;
         let v: Vec<Matrix3<f64>> = s.relative_positions().map(|t| t.into()).collect();
         v
     };
